@@ -313,7 +313,8 @@ def compileRaw (e : Env) (next : Nat) (ws : List String) : R :=
       | some (b, r) => .ops (b.emit (refs.map fun r => GOp.dec r.2)).ops (e.put x (.cell (r.h.getD 0) r.u))
       | none => .skip
     | _, _ => .skip
-  | ["accum", x, s, _, _] =>
+  | ["accum", x, s, _, _] | ["accumlazy", x, s, _, _] =>
+    if ws.head? == some "accumlazy" && (e.find (ws.getD 3 "")) != some .other then .skip else
     match e.find x, (e.find s).bind streamRef with
     | none, some (acq, a) =>
       let b : B := { next := next, ops := acq }
@@ -323,7 +324,8 @@ def compileRaw (e : Env) (next : Nat) (ws : List String) : R :=
       let (b, m) := b.node "Stream::map" [a, a, h]
       .ops (b.emit [.edge l m, .edge l m, .sadd l m, .dec m, .dec l, .dec sl, .dec a]).ops (e.put x (.cell h l))
     | _, _ => .skip
-  | ["collect", x, s, _, _] =>
+  | ["collect", x, s, _, _] | ["collectlazy", x, s, _, _] =>
+    if ws.head? == some "collectlazy" && (e.find (ws.getD 3 "")) != some .other then .skip else
     match e.find x, (e.find s).bind streamRef with
     | none, some (acq, a) =>
       let b : B := { next := next, ops := acq }
@@ -443,7 +445,7 @@ def compileRaw (e : Env) (next : Nat) (ws : List String) : R :=
     transaction is open, a collection follows the construction -/
 def ctorWithTxn : List String :=
   ["ssink", "never", "csink", "map", "mapto", "filter", "once", "filteropt", "merge", "orelse",
-   "snapshot", "snapshot1", "snapshotn", "gate", "hold", "holdlazy", "value", "mapc", "lift2", "accum", "collect",
+   "snapshot", "snapshot1", "snapshotn", "gate", "hold", "holdlazy", "value", "mapc", "lift2", "accum", "collect", "accumlazy", "collectlazy",
    "defer", "split", "sloop", "cloop", "route", "listen", "listenweak"]
 
 def compile (e : Env) (next : Nat) (ws : List String) : R :=
